@@ -22,8 +22,10 @@ EXTENDS Naturals, Sequences, FiniteSets, TLC, Json, SequencesExt
 CONSTANT TraceFile
 Trace == ndJsonDeserialize(TraceFile)
 
-VARIABLES l, meth, stack, phase, bad
-vars == <<l, meth, stack, phase, bad>>
+VARIABLES l, meth, stack, phase, bad, last
+vars == <<l, meth, stack, phase, bad, last>>
+\* last: what the previous event said about the conversion position being decided (lookup -> seen -> sub -> newsub)
+NoLast == [ev |-> "", src |-> "", tgt |-> "", hit |-> "", create |-> FALSE]
 
 Rng(s) == {s[i] : i \in DOMAIN s}
 E == Trace[l]
@@ -31,7 +33,7 @@ IsEvent(name) == l <= Len(Trace) /\ Trace[l].ev = name /\ l' = l + 1
 Top == stack[Len(stack)]
 AnyDirty == \E m \in DOMAIN meth : meth[m].dirty
 
-Init == l = 1 /\ meth = <<>> /\ stack = <<>> /\ phase = "idle" /\ bad = {}
+Init == l = 1 /\ meth = <<>> /\ stack = <<>> /\ phase = "idle" /\ bad = {} /\ last = NoLast
 
 \* a new converter (or a new run: trace.reset) starts from an empty index
 Start == /\ (IsEvent("gen.start") \/ IsEvent("trace.reset"))
@@ -60,6 +62,7 @@ TopEv == /\ IsEvent("gen.top") /\ phase = "sweeping"
 SameSig(m, src, tgt) == meth[m].src = src /\ meth[m].tgt = tgt /\ ~meth[m].update
 TopAvail == IF meth[Top].explicit THEN meth[Top].ctx ELSE meth[Top].avail
 NewSub == /\ IsEvent("gen.newsub") /\ stack # <<>> /\ E.creator = Top
+          /\ last.ev = "gen.sub" /\ last.create /\ last.src = E.src /\ last.tgt = E.tgt      \* only after the decision to create one, for that pair
           /\ E.m \notin DOMAIN meth
           /\ ~\E m \in DOMAIN meth : SameSig(m, E.src, E.tgt)                     \* LookupFirst
           /\ meth' = meth @@ (E.m :> [src |-> E.src, tgt |-> E.tgt, explicit |-> FALSE, update |-> FALSE,
@@ -91,10 +94,31 @@ NeedCtx == /\ IsEvent("gen.needctx") /\ stack # <<>>
            /\ OnPath(E.m) /\ ~meth[E.m].explicit /\ E.t \notin meth[E.m].ctx
            /\ meth' = Touch(E.m, [meth[E.m] EXCEPT !.ctx = @ \cup {E.t}])
            /\ UNCHANGED <<stack, phase, bad>>
+\* The sub-method decision is taken only after the lookup missed for exactly this pair -- or where the lookup is bypassed because
+\* only a *generated* helper exists for the pair (update assignments) -- and is the documented function of the logged features:
+\* the seen rule forces a helper; otherwise none inside a pointer-variant method or for identical types under skipCopySameType;
+\* otherwise one for named non-basic types and pointers to them (named basic pairs may be enums: state that is not logged).
+MissedFor(src, tgt) == last.ev = "gen.lookup" /\ last.hit = "none" /\ last.src = src /\ last.tgt = tgt
+HelperOnly(src, tgt) == \E m \in DOMAIN meth : SameSig(m, src, tgt) /\ ~meth[m].explicit
 Seen == /\ IsEvent("gen.seen") /\ stack # <<>> /\ E.m = Top
+        /\ ((last.ev = "gen.lookup" /\ last.hit = "none") \/ (\E m \in DOMAIN meth : ~meth[m].explicit))
         /\ meth' = [meth EXCEPT ![E.m].dirty = TRUE]
         /\ UNCHANGED <<stack, phase, bad>>
-Sub == IsEvent("gen.sub") /\ stack # <<>> /\ E.m = Top /\ UNCHANGED <<meth, stack, phase, bad>>
+SubBase(e) == (e.s.named /\ ~e.s.basic) \/ (e.t.named /\ ~e.t.basic) \/ (e.s.ptr /\ e.s.e.named /\ ~e.s.e.basic)
+MaybeEnum(e) == e.s.named /\ e.s.basic /\ e.t.named /\ e.t.basic
+SubDecision(e, seen) ==
+  IF seen THEN e.create
+  ELSE IF e.ptrStruct THEN ~e.create
+  ELSE IF e.skip /\ e.s.str = e.t.str THEN ~e.create
+  ELSE IF SubBase(e) THEN e.create
+  ELSE IF MaybeEnum(e) THEN TRUE
+  ELSE ~e.create
+Sub == /\ IsEvent("gen.sub") /\ stack # <<>> /\ E.m = Top
+       /\ \/ MissedFor(E.s.str, E.t.str)
+          \/ (last.ev = "gen.seen" /\ ((last.src = E.s.str /\ last.tgt = E.t.str) \/ HelperOnly(E.s.str, E.t.str)))
+          \/ HelperOnly(E.s.str, E.t.str)
+       /\ SubDecision(E, last.ev = "gen.seen")
+       /\ UNCHANGED <<meth, stack, phase, bad>>
 
 \* ---------------- the rule chain on logged type features
 RuleOrder == <<"*builder.UseUnderlyingTypeMethods", "*builder.SkipCopy", "*builder.Enum", "*builder.BasicTargetPointerRule", "*builder.Pointer",
@@ -139,8 +163,13 @@ FailEv == /\ IsEvent("gen.fail") /\ phase' = "failed" /\ stack' = <<>> /\ UNCHAN
 \* after a failed nested build the enclosing builds end with ok = false as well
 EndFailed == /\ IsEvent("gen.end") /\ phase = "failed" /\ UNCHANGED <<meth, stack, phase, bad>>
 
-Next == Start \/ Ext \/ Reg \/ Sweep \/ Pick \/ TopEv \/ NewSub \/ Lookup \/ Call \/ NeedErr \/ NeedCtx \/ Seen \/ Sub \/ RuleEv \/ Mismatch
-        \/ EndEv \/ AppendEv \/ FailEv \/ EndFailed
+Summ(e) == IF e.ev = "gen.lookup" THEN [ev |-> e.ev, src |-> e.src, tgt |-> e.tgt, hit |-> e.hit, create |-> FALSE]
+           ELSE IF e.ev = "gen.sub" THEN [ev |-> e.ev, src |-> e.s.str, tgt |-> e.t.str, hit |-> "", create |-> e.create]
+           ELSE IF e.ev = "gen.seen" THEN [last EXCEPT !.ev = "gen.seen"]
+           ELSE NoLast
+Next == /\ Start \/ Ext \/ Reg \/ Sweep \/ Pick \/ TopEv \/ NewSub \/ Lookup \/ Call \/ NeedErr \/ NeedCtx \/ Seen \/ Sub \/ RuleEv \/ Mismatch
+           \/ EndEv \/ AppendEv \/ FailEv \/ EndFailed
+        /\ last' = Summ(E)
 Spec == Init /\ [][Next]_vars
 
 SigConsistentAtAppend == phase = "appended" => bad = {}
